@@ -102,6 +102,10 @@ func isIncludeKeyword(lex *scanner.Lexeme) bool {
 }
 
 func validateIncludeFileName(s string) error {
+	if s == "" {
+		return errors.New(jerr.IncludeEmptyErr)
+	}
+
 	if s[0] == '/' {
 		return errors.New(jerr.IncludeRootErr)
 	}
